@@ -113,6 +113,10 @@ def run(tier, rep):
         samples += x['samples'][:1]
         for v in x['violations']:
             # key by the kind of failure and the dataset family, not by every dataset
+            if v['key'].startswith(('reuse:', 'crash:')):
+                kind = v['key'].split(':')[0]
+                rep.violation('ga:%s' % kind if kind == 'crash' else 'ga:reuse:%s' % v['key'].rsplit(':', 1)[-1], v['text'])
+                continue
             k = v['key'].split(':', 1)
             fam = k[0].split('_')[0] + ('_' + k[0].split('_')[1] if not k[0].split('_')[1].startswith('a') else '')
             rep.violation('ga:%s:%s' % (fam, k[1]), v['text'])
@@ -121,7 +125,7 @@ def run(tier, rep):
     rep.coverage.update({
         'evaluations': ev, 'distinct_nontrivial': nt, 'datasets': ds, 'datasets_the_encoder_cannot_write': skipped, 'cdf_lines_decoded': ln,
         'exhaustive': True, 'samples': samples[:4] or ['none'],
-        'rule': 'datasets: every assignment of {0,1e-6,1,1e3} to the cells of the kinematic triangle for n=2,3 (n=4: every assignment of {1e-6,1e3}; thorough) and eight '
+        'rule': 'one object through initialise(A) -> reset -> initialise(B) vs. a new object on B for consecutive dataset pairs in both orders x the four method combinations x a 7x7 deviate grid (each pair in a forked child); datasets: every assignment of {0,1e-6,1,1e3} to the cells of the kinematic triangle for n=2,3 (n=4: every assignment of {1e-6,1e3}; thorough) and eight '
                 'shapes (flat, ridge, corner, zero cells, runs of nines along rows / along e1 / deep, rising) for larger n, two energy ranges, written with the '
                 'repository\'s mkocdfdata.py; per dataset: every c.d.f. line decoded by load_optimized_cdf_array vs the encoder-side table (encoding precision), '
                 'monotone, in [0,1], ending at 1; inverse-transform sampler on all table boundaries (exact, +-1e-9, +-1e-3), mid points and tails: energies >= 0, '
